@@ -53,6 +53,10 @@ def run(tier):
         c["ABases"] = vlib.Sub("ABasesMixed" if c["DimD"] == 1 or tier == "thorough" else "ABasesTwo")
         arrays.run_config(rep, "C19", name, c, exe_int, wd, len(c["Slots"]), check_first=True, sig_extra={"part": "arrays"})
     rep.notes.pop("_nontrivial", None); rep.notes.pop("_last_exps", None); rep.notes.pop("_last_obs", None)
+    # the index-extension algebra itself (Extensions.tla): valid indices, canonical order, intersection
+    from checks import extensions
+    nx, ax = extensions.run_part(rep, tier)
+    vlib.log("C19 extensions: %d operand pairs, %d agree" % (nx, ax))
     rep.assumptions = ["index bases of derived views are taken from the code-shaped model only to form in-domain "
                        "arguments; a program whose prefix shows a different base in the real library is skipped, "
                        "not judged", "explicit bases (construction from index extensions, reindexed, blocked) are demanded"]
